@@ -252,3 +252,261 @@ def gifts(ctx):
                     ctx.fail(sig, text, replay=dict(scenario="gift4: two origins with colliding clids gifted in one call, gifter "
                                                     "drops both, recipient's link to the second owner delayed",
                                                     order=list(order), delay=delay))
+
+
+# ------------------------------------------------------------------------------------------------------------
+# two successive connections between the same two Tubs; proxies of the first connection are still held and are
+# sent / called / used as call targets after the second connection exists (C08), and nothing done with them may
+# repopulate the tables of the dead Brokers (C09)
+class Sub(Referenceable):
+    def __init__(self, name):
+        self.name = name
+        self.marks = 0
+        self.got = []
+
+    def remote_mark(self):
+        self.marks += 1
+        return self.name
+
+    def remote_take(self, x):
+        self.got.append(x)
+        return True
+
+
+class Service(Referenceable):
+    def __init__(self):
+        self.subs = {}
+        self.args = []
+
+    def remote_open(self, name):
+        s = self.subs[name] = Sub(name)
+        return s
+
+    def remote_close(self, x):
+        self.args.append(x)
+        return True
+
+
+def _call(net, rref, *a, **kw):
+    out = []
+    rref.callRemote(*a, **kw).addBoth(out.append)
+    for i in range(4):
+        run_net(net)
+        if out:
+            break
+        E.clock.advance(130)
+    return out[0] if out else None
+
+
+def dead_tables(b):
+    return {n: len(getattr(b, n)) for n in ("myReferenceByPUID", "myReferenceByCLID", "yourReferenceByCLID", "yourReferenceByURL",
+                                            "myGifts", "myGiftsByGiftID") if getattr(b, n)}
+
+
+def reconnect_scenario(nx, ny, handler):
+    """-> (problems, nontrivial).  nx / ny: objects exported on the first / second connection (clids restart at 1, so for
+    ny >= 1 the stale clids collide with DIFFERENT objects); handler: a notifyOnDisconnect handler on the client fires
+    callRemote / callRemoteOnly with by-reference arguments at the dying connection"""
+    import weakref
+    from foolscap.referenceable import RemoteReference
+    from foolscap.ipb import DeadReferenceError
+    problems = []
+    E.reset_clock()
+    net = Net()
+    pems = [p for _, p in pems_sorted(2)]
+    A, B = make_tub(net, "a", pems[0]), make_tub(net, "b", pems[1])
+    service = Service()
+    furl = A.registerReference(service)
+    got = []
+    B.getReference(furl).addBoth(got.append)
+    run_net(net)
+    if not got or not isinstance(got[0], RemoteReference):
+        return [("oracle/reconnect-setup-failed", "first getReference: %r" % (got,))], 0
+    svc1 = got[0]
+    old = {}
+    for i in range(nx):
+        old["X%d" % i] = _call(net, svc1, "open", "X%d" % i)
+    if not all(isinstance(p, RemoteReference) for p in old.values()):
+        return [("oracle/reconnect-setup-failed", "open on the first connection: %r" % (old,))], 0
+    # a by-reference object of the client travels to the server on the first connection too
+    local = Sub("client-local")
+    wlocal = weakref.ref(local)
+    if nx:
+        _call(net, old["X0"], "take", local)
+    a1 = list(A.brokers.values())[0]
+    b1 = list(B.brokers.values())[0]
+    fired = []
+    if handler:
+        def on_disconnect():
+            # sends at a connection that is already dead, with pass-by-reference arguments
+            o = Sub("sent-from-disconnect-handler")
+            fired.append(weakref.ref(o))
+            svc1.callRemoteOnly("close", o)
+            svc1.callRemote("close", [o, local]).addErrback(lambda f: fired.append(f.type))
+            for p in old.values():
+                p.callRemoteOnly("take", o)
+                svc1.callRemoteOnly("close", p)
+            del o
+        svc1.notifyOnDisconnect(on_disconnect)
+    for l in list(net.links):
+        l.cut()
+    run_net(net)
+    gc.collect()
+    if not (a1.disconnected and b1.disconnected):
+        problems.append(("oracle/reconnect-setup-failed", "the old Brokers are not disconnected after the cut"))
+
+    def check_dead(where):
+        for nm, b in (("server", a1), ("client", b1)):
+            t = dead_tables(b)
+            if t:
+                problems.append(("oracle/table-survives-connection-loss", "%s: tables of the dead %s Broker are not empty: %r"
+                                 % (where, nm, t)))
+    check_dead("after connection loss" + (" and a disconnect handler that sends by-reference arguments" if handler else ""))
+    # second connection
+    got2 = []
+    B.getReference(furl).addBoth(got2.append)
+    run_net(net)
+    if not got2 or not isinstance(got2[0], RemoteReference):
+        return problems + [("oracle/reconnect-setup-failed", "second getReference: %r" % (got2,))], 0
+    svc2 = got2[0]
+    if svc2 is svc1:
+        problems.append(("oracle/reconnect-setup-failed", "the second connection returned the old proxy"))
+    new = {}
+    for i in range(ny):
+        new["Y%d" % i] = _call(net, svc2, "open", "Y%d" % i)
+    cfg = "first connection exported %d objects, second %d, disconnect handler: %s" % (nx, ny, bool(handler))
+
+    def who(x):
+        """identity of what the server was handed: the object itself, or whatever a call through it reaches"""
+        if isinstance(x, Sub):
+            return x.name, "object"
+        if isinstance(x, RemoteReference):
+            r = _call(net, x, "mark")
+            return (r if isinstance(r, str) else repr(getattr(r, "value", r))), "proxy"
+        return repr(x), "other"
+    # 1. stale proxies handed to the owner over the NEW connection, bare and nested
+    for name, p in sorted(old.items()):
+        for nested in (False, True):
+            del service.args[:]
+            r = _call(net, svc2, "close", [p, p] if nested else p)
+            if r is not True or len(service.args) != 1:
+                problems.append(("oracle/home-not-delivered", "a proxy for %s obtained over the earlier connection could not be handed "
+                                 "to its owner over the new one: %r; %s" % (name, getattr(r, "value", r), cfg)))
+                continue
+            xs = service.args[0] if nested else [service.args[0]]
+            for x in xs:
+                w, kind = who(x)
+                if w != name:
+                    problems.append(("oracle/home-not-original", "the proxy for %s (from the earlier connection) handed to its owner over "
+                                     "the new connection arrived as %s %s; %s" % (name, kind, w, cfg)))
+    # 2. proxies of the new connection go home as the originals
+    for name, p in sorted(new.items()):
+        del service.args[:]
+        r = _call(net, svc2, "close", p)
+        if r is not True or len(service.args) != 1 or service.args[0] is not service.subs[name]:
+            problems.append(("oracle/home-not-original", "the proxy for %s sent home arrived as %r (%r); %s"
+                             % (name, service.args, getattr(r, "value", r), cfg)))
+    # 3. calls through stale proxies reach nothing (and certainly not another object)
+    marks = {n: s.marks for n, s in service.subs.items()}
+    for name, p in sorted(old.items()):
+        r = _call(net, p, "mark")
+        if not (hasattr(r, "check") and r.check(DeadReferenceError)):
+            problems.append(("oracle/call-misrouted", "a call through the stale proxy for %s returned %r; %s" % (name, r, cfg)))
+    moved = {n: s.marks - marks[n] for n, s in service.subs.items() if s.marks != marks[n]}
+    if moved:
+        problems.append(("oracle/call-misrouted", "calls through stale proxies reached %r; %s" % (moved, cfg)))
+    # 4. sends at the dead connection with by-reference arguments: callRemote fails, callRemoteOnly is ignored, and the dead
+    #    Brokers' tables stay empty (nothing is pinned)
+    o = Sub("sent-after-loss")
+    wo = weakref.ref(o)
+    r = _call(net, svc1, "close", o)
+    if not (hasattr(r, "check") and r.check(DeadReferenceError)):
+        problems.append(("oracle/stale-call-not-refused", "callRemote on a proxy of the lost connection returned %r; %s" % (r, cfg)))
+    svc1.callRemoteOnly("close", [o, local])
+    for p in old.values():
+        p.callRemoteOnly("take", o)
+        svc1.callRemoteOnly("close", p)
+    run_net(net)
+    check_dead("after callRemote/callRemoteOnly with by-reference arguments on proxies of the lost connection")
+    del o, r       # (the Failure's exception keeps the frames of the refused call, and with them its arguments)
+    gc.collect()
+    if wo() is not None:
+        problems.append(("oracle/table-survives-connection-loss", "an object passed to callRemoteOnly on a dead connection stays "
+                         "pinned; %s" % cfg))
+    for w in fired:
+        if isinstance(w, weakref.ref) and w() is not None:
+            problems.append(("oracle/table-survives-connection-loss", "an object sent from a notifyOnDisconnect handler stays pinned; "
+                             "%s" % cfg))
+    if handler and DeadReferenceError not in fired:
+        problems.append(("oracle/stale-call-not-refused", "callRemote from a notifyOnDisconnect handler did not fail with "
+                         "DeadReferenceError: %r; %s" % (fired, cfg)))
+    # 5. what YourReferenceSlicer puts on the wire for (proxy's connection, outgoing connection), for the correspondence
+    #    with the model's slice_proxy (done last: the gift branch registers a gift on the live Broker)
+    from foolscap.referenceable import YourReferenceSlicer
+    live = [b for b in B.brokers.values() if not b.disconnected]
+    p = None
+    for pconn, p in ([(1, q) for q in old.values()] + [(2, q) for q in new.values()] + [(1, svc1), (2, svc2)]) if live else []:
+        for oconn, br in ((1, b1), (2, live[0])):
+            try:
+                tok = next(YourReferenceSlicer(p).slice(False, br))
+            except Exception as e:
+                tok = repr(e).encode()
+            WIRE_OBS.append((pconn, oconn, tok.decode("ascii", "replace")))
+    del p
+    for t in (A, B):
+        t.stopService()
+    E.turn()
+    return problems, int(nx > 0 and ny > 0)
+
+
+WIRE_OBS = []
+
+
+def wire_correspondence(ctx):
+    """model's slice_proxy vs the real YourReferenceSlicer on every (proxy connection, outgoing connection) pair seen"""
+    from harness import common
+    obs = sorted(set(WIRE_OBS))
+    del WIRE_OBS[:]
+    if not obs:
+        return
+    pairs = sorted(set((a, b) for a, b, _ in obs))
+    body = ("Local Open Scope Z_scope.\nDefinition code (w : wire) : Z := match w with WYourRef _ => 1 | WTheirRef _ => 2 end.\n"
+            "Eval vm_compute in map (fun pq => code (slice_proxy {| conn_id := fst pq; conn_peer := 7 |} "
+            "{| conn_id := snd pq; conn_peer := 7 |} 5 9)) %s.\n" % common.coq_list(["(%d, %d)" % pq for pq in pairs]))
+    try:
+        (vals,) = ctx.coq_eval("C08_wire_cases", body, requires=["Verif.lib.PyLite", "Verif.gen.RefsGen", "Verif.lib.Refs"])
+    except common.CoqEvalError as e:
+        ctx.fail("correspondence-broken", "slice_proxy could not be evaluated: " + str(e)[-800:], has_input=False)
+        return
+    want = dict(zip(pairs, vals))
+    names = {1: "your-reference", 2: "their-reference"}
+    for a, b, tok in obs:
+        ctx.traces += 1
+        if names.get(want[(a, b)]) != tok:
+            ctx.fail("correspondence/going-home-decision", "a proxy received on connection %d, serialised on connection %d (same peer "
+                     "Tub): model says %s, YourReferenceSlicer emits %s" % (a, b, names.get(want[(a, b)]), tok),
+                     replay=dict(proxy_conn=a, out_conn=b, impl=tok), has_input=False)
+    ctx.extra["wire_cases"] = len(obs)
+
+
+RECONNECT_SIG = {"oracle/table-survives-connection-loss": "C09", "oracle/stale-call-not-refused": "C09"}
+
+
+def reconnect(ctx, pid):
+    """run the reconnection family; report the signatures that belong to property pid (C08: identity, C09: tables)"""
+    with quiet():
+        for nx in (0, 1, 2, 3):
+            for ny in (0, 1, 3):
+                for handler in (False, True):
+                    try:
+                        problems, ok = reconnect_scenario(nx, ny, handler)
+                    except Exception:
+                        import traceback
+                        problems, ok = [("oracle/reconnect-exception", "reconnect scenario raised: %s" % traceback.format_exc()[-900:])], 0
+                    ctx.case(["reconnect", nx, ny, handler], nontrivial=bool(ok))
+                    ctx.hist("reconnect_scenario", "held" if not problems else problems[0][0])
+                    for sig, text in problems:
+                        if RECONNECT_SIG.get(sig, "C08" if sig != "oracle/reconnect-exception" else pid) != pid:
+                            continue
+                        ctx.fail(sig, text, replay=dict(scenario="reconnect: proxies of an earlier connection to the same Tub are sent home / "
+                                                        "called / used as targets after reconnection", nx=nx, ny=ny, handler=handler))
